@@ -267,6 +267,7 @@ func cmdRun(args []string) {
 	out := fs.String("out", "", "results JSON")
 	workers := fs.Int("workers", 16, "parallel workers")
 	cpuprof := fs.String("cpuprofile", "", "write CPU profile")
+	gcpct := fs.Int("gcpercent", 600, "GC percent (lower for memory-heavy job groups)")
 	fs.Parse(args)
 	if *cpuprof != "" {
 		f, _ := os.Create(*cpuprof)
@@ -283,7 +284,7 @@ func cmdRun(args []string) {
 		fmt.Fprintln(os.Stderr, err)
 		os.Exit(2)
 	}
-	debug.SetGCPercent(600)
+	debug.SetGCPercent(*gcpct)
 	t0 := time.Now()
 	l, err := load(*repo, *overlay)
 	if err != nil {
